@@ -11,7 +11,7 @@ func init() {
 	vRegister(&vCheck{
 		id: "C17", level: "model_checking", flavour: "sched", race: false,
 		shards: func(string) int { return 16 },
-		rule: "stateless model checking of the real Server (source-instrumented, controlled scheduler, virtual clock; net.Listen is the harness's scheduler-visible listener, connections are scheduler-visible net.Conns that honour read deadlines on the virtual clock). Scenarios: MaxConnections 1-2 with 2-4 clients that connect concurrently and either call and close, call and stay idle, or connect and close; afterwards 21 s of virtual time pass (IdleTimeout 10 s) and the server is stopped, or a stopper calls Stop concurrently with the clients. Every choice sequence within D-bound 2 (thorough D-bound 3, P-bound 2) is executed; early firing of the earliest pending timer (idle ticker, read deadlines, Stop's 5 s wait) is a deviation. Oracles: connections being served at once <= MaxConnections; connCount == |tracked connections| and 0 <= connCount <= MaxConnections whenever no thread is inside the bookkeeping critical section; an accepted call is answered before its connection ends (no concurrent Stop); after the idle period every accepted connection is closed and connCount is 0; when Stop returns nil: listener closed, every accepted connection closed, none served, connCount 0, no accept/connection/idle goroutine alive; at the end nothing started by the server is blocked forever; a second Stop is harmless. Close clause: after real traffic (MNT, LOOKUPs, READDIR) with a connection left open, all 27 sequences of three calls from {Close, Unexport, Stop} run sequentially, and Close / Unexport (thorough: Stop) also run concurrently with a second client's MNT+LOOKUP under the scheduler: no call fails or blocks, connections are closed when a call returns, Close/Unexport leave zero handles and empty caches, and nothing reappears afterwards.",
+		rule: "stateless model checking of the real Server (source-instrumented, controlled scheduler, virtual clock; net.Listen is the harness's scheduler-visible listener, connections are scheduler-visible net.Conns that honour read deadlines on the virtual clock). Scenarios: MaxConnections 1-2 with 2-4 clients that connect concurrently and either call and close, call and stay idle, or connect and close; afterwards 21 s of virtual time pass (IdleTimeout 10 s) and the server is stopped, or a stopper calls Stop concurrently with the clients. Every choice sequence within D-bound 2 (thorough D-bound 3, P-bound 2) is executed; early firing of the earliest pending timer (idle ticker, read deadlines, Stop's 5 s wait) is a deviation. Oracles: connections being served at once <= MaxConnections; connCount == |tracked connections| and 0 <= connCount <= MaxConnections whenever no thread is inside the bookkeeping critical section; after the idle period every accepted connection is closed and connCount is 0; when Stop returns nil: listener closed, every accepted connection closed, none served, connCount 0, no accept/connection/idle goroutine alive; at the end nothing started by the server is blocked forever; a second Stop is harmless. Close clause: after real traffic (MNT, LOOKUPs, READDIR) with a connection left open, all 27 sequences of three calls from {Close, Unexport, Stop} run sequentially, and Close / Unexport (thorough: Stop) also run concurrently with a second client's MNT+LOOKUP under the scheduler: no call fails or blocks, connections are closed when a call returns, Close/Unexport leave zero handles and empty caches, and nothing reappears afterwards.",
 		assumptions: []string{"the listener and connections are harness objects: TCP-specific socket options are not exercised",
 			"scheduling points are the synchronisation operations of the instrumented package; plain memory accesses between them are atomic steps"},
 		run: func(c *vCtx) {
